@@ -61,6 +61,39 @@ func isIncOf(st *ssa.Store, sel string) bool {
 
 func sameRoot(a, b ssa.Value) bool { return apOf(a).Root == apOf(b).Root }
 
+// isIncIn is isIncOf in the flattened view of root: the stored value stems, on
+// every way it can be produced (through helpers too), from counter + 1 read
+// from the very counter that is stored to.
+func isIncIn(root *ssa.Function, st *ssa.Store, sel string) bool {
+	dst := viewAPs(root, st.Addr)
+	if len(dst) != 1 || dst[0].SelString() != sel {
+		return false
+	}
+	os := viewOrigins(root, st.Val)
+	if len(os) == 0 {
+		return false
+	}
+	for _, o := range os {
+		b, ok := o.(*ssa.BinOp)
+		if !ok || b.Op != token.ADD {
+			return false
+		}
+		k, isK := constInt(b.Y)
+		if !isK || k != 1 {
+			return false
+		}
+		ld, ok := b.X.(*ssa.UnOp)
+		if !ok || ld.Op != token.MUL {
+			return false
+		}
+		src := viewAPs(root, ld.X)
+		if len(src) != 1 || src[0].SelString() != sel || src[0].Root != dst[0].Root {
+			return false
+		}
+	}
+	return true
+}
+
 // exitLabel gives a stable (line-free) description of where a path leaves the
 // function: the last call before the return and the kind of value returned.
 func exitLabel(p CPath) string {
@@ -123,10 +156,22 @@ func checkC09(c *Ctx, r *Report) {
 				switch x := in.(type) {
 				case *ssa.Store:
 					sel := apOf(x.Addr).SelString()
+					// the closure this function belongs to: itself, or a helper that only ever runs as part of it
+					var owner *ssa.Function
+					for _, sc := range sess {
+						if sc.Fn == fn || c.privateTo(sc.Fn, fn) {
+							owner = sc.Fn
+						}
+					}
+					if strings.HasSuffix(sel, counterSel) && sel != counterSel && owner != nil {
+						if aps := viewAPs(owner, x.Addr); len(aps) == 1 {
+							sel = aps[0].SelString()
+						}
+					}
 					if sel == counterSel {
-						if !inSessClosure[fn] {
+						if owner == nil {
 							r.Bad(c.FnName(fn)+"|store "+sel, x.Pos(), "the counter is written outside the in-session send closure")
-						} else if !isIncOf(x, counterSel) {
+						} else if !isIncIn(owner, x, counterSel) {
 							r.Bad(c.FnName(fn)+"|store "+sel, x.Pos(), "store to the counter is not `counter = counter + 1`")
 						} else {
 							r.OK(c.FnName(fn)+"|store "+sel, x.Pos(), "+1 increment in the in-session send closure")
@@ -171,14 +216,14 @@ func checkC09(c *Ctx, r *Report) {
 			for k, in := range ins {
 				switch x := in.(type) {
 				case *ssa.Store:
-					sel := apOf(x.Addr).SelString()
+					sel := p.AP(x.Addr).SelString()
 					switch {
 					case sel == counterSel:
 						incs = append(incs, k)
 					case sel == fSess:
 						// whole-value store: Sequence comes from the literal (zero if absent)
 						seqVal, seqValAt = nil, -1
-						if f, _, ok := complitFields(x.Val); ok {
+						if f := p.objFields(p.objOf(x.Val)); len(f) > 0 {
 							if v, has := f["Sequence"]; has {
 								seqVal, seqValAt = v, k
 							}
@@ -221,10 +266,10 @@ func checkC09(c *Ctx, r *Report) {
 				default:
 					v := p.Resolve(seqVal)
 					inc := ins[incs[0]].(*ssa.Store)
-					if v == inc.Val && incs[0] < sendAt {
+					if v == p.Resolve(inc.Val) && incs[0] < sendAt {
 						// the very value committed to the counter (before or after the commit)
 						ok = true
-					} else if ld, isLd := v.(*ssa.UnOp); isLd && ld.Op == token.MUL && apOf(ld.X).SelString() == counterSel && sameRoot(ld.X, inc.Addr) {
+					} else if ld, isLd := v.(*ssa.UnOp); isLd && ld.Op == token.MUL && p.AP(ld.X).SelString() == counterSel && p.AP(ld.X).Root == p.AP(inc.Addr).Root {
 						// a read of the counter: it must happen after the increment
 						at := -1
 						for k, in := range ins {
